@@ -220,7 +220,7 @@ func c12ListenerRemovalRecorded(c *Ctx) {
 	ok := false
 	for _, st := range live {
 		for _, cs := range callsIn(fn, false, func(cc *ssa.CallCommon) bool { return deleters[cc.StaticCallee()] }) {
-			if cs.Instr.Block() == st.Block() && len(cs.Instr.Common().Args) == 1 && cs.Instr.Common().Args[0] == ssa.Value(fn.Params[1]) {
+			if cs.Instr.Block() == st.Block() && len(cs.Instr.Common().Args) == 1 && sameParam(cs.Instr.Common().Args[0], fn.Params[1]) {
 				ok = true
 			}
 		}
